@@ -86,7 +86,10 @@ def gen_call_1d(rng, last=None):
         else:
             kw = {'method': 'asls', 'method_kwargs': {'lam': 1e3, 'max_iter': 5},
                   'regions': rng.choice([[[0, 8]], [[2, 10]], [[0, 6], [12, 16]]]), 'sampling': 2, 'lam': rng.choice([None, 1e2])}
-        return add_pp(rng, {'m': m, 'kw': kw, 'data': 'ok', 'w': w}, ('regions',), 0.5)
+        call = {'m': m, 'kw': kw, 'data': 'ok', 'w': w}
+        if rng.random() < 0.3:
+            make_failing(call, rng.choice(FAIL_MODES[m]))
+        return add_pp(rng, call, ('regions',), 0.5)
     if r < 0.40:
         m = rng.choice(POLY_PINV + POLY_PINV + POLY_VAND)
         p = rng.choice([0, 1, 2, 2, 3, 3, 4, 5, 6, 7])
@@ -225,6 +228,34 @@ def args_1d(m, kw, nd, dataok, w, pre, post, N=0):
                coq_b(pre), coq_b(post)))
 
 
+# rejected optimizer calls: the wrapped method raises INSIDE the optimizer (on its own parameters after its setup,
+# or on an unknown keyword before it), or the optimizer fails right after the inner fit (no 'weights' in its output)
+FAIL_MODES = {'collab_pls': ['inner_body', 'bad_kw', 'no_weights'], 'adaptive_minmax': ['inner_body', 'bad_kw', 'up_front'],
+              'optimize_extended_range': ['inner_body', 'bad_kw'], 'custom_bc': ['inner_body', 'bad_kw']}
+
+
+def make_failing(call, mode):
+    m, kw = call['m'], call['kw']
+    mk = dict(kw.get('method_kwargs') or {})
+    if mode == 'bad_kw':
+        mk['no_such_parameter'] = 1
+    elif mode == 'no_weights':
+        kw['method'] = 'golotvin'
+        mk = {'half_window': 4, 'sections': 4}
+    elif mode == 'up_front':
+        kw['constrained_fraction'] = 2.0
+    elif m in ('collab_pls', 'custom_bc'):
+        mk['lam'] = -1.0
+    else:
+        if kw['method'] in ('poly', 'asls', 'pspline_asls'):
+            kw['method'] = 'modpoly'
+            mk = {}
+        mk['max_iter'] = 'many'
+    kw['method_kwargs'] = mk
+    call['fail'] = mode
+    return call
+
+
 def inner_calls(call):
     """The registered methods an optimizer delegates to on the SAME object, in order: (method, kwargs, weights)."""
     m, kw = call['m'], call['kw']
@@ -234,6 +265,8 @@ def inner_calls(call):
         return [(kw['method'], {'poly_order': o}, 'ok') for o in orders for _ in range(2)]
     if m == 'collab_pls':
         mk = dict(kw.get('method_kwargs') or {})
+        if call.get('fail') == 'no_weights':
+            return [(kw['method'], mk, None)]
         return [(kw['method'], mk, None), (kw['method'], mk, 'ok'), (kw['method'], mk, 'ok')]
     return []   # optimize_extended_range / custom_bc fit on a NEW object (_override_x)
 
@@ -246,9 +279,15 @@ def group_1d(call, N, raised):
     kw = dict(SPEED.get(call['m'], {}))
     kw.update(call['kw'])
     inner = inner_calls(call) if call['m'] in OPTIMIZERS else []
+    fail = call.get('fail')
+    if fail == 'up_front':
+        inner = []
     items = [f'IMethod "{call["m"]}" {args_1d(call["m"], kw, nd, call["data"] != "nan", call["w"], pre_raise_1d(call), raised and not inner, N)}']
     for k, (im, ikw, iw) in enumerate(inner):
-        items.append(f'IMethod "{im}" {args_1d(im, ikw, nd, True, iw, False, raised and k == len(inner) - 1, N)}')
+        # a delegated call that is known to fail stops the group there: before its setup (unknown keyword) or after it
+        pre = fail == 'bad_kw' and k == 0
+        post = (fail == 'inner_body' and k == 0) or (raised and k == len(inner) - 1)
+        items.append(f'IMethod "{im}" {args_1d(im, ikw, nd, True, iw, pre, post, N)}')
     return items
 
 
@@ -446,15 +485,38 @@ def _invariant_1d(f):
     return None
 
 
-def new_1d(x):
+# fitter configurations: (output_dtype, check_finite, assume_sorted); enumerated, history k uses CONFIGS[k % 12]
+CONFIGS = [{'dtype': d, 'cf': cf, 'as': a} for d in (None, 'float32', 'int64') for cf in (True, False) for a in (False, True)]
+DEFAULT_CFG = {'dtype': None, 'cf': True, 'as': False}
+
+
+def cfg_kwargs(cfg):
+    cfg = cfg or DEFAULT_CFG
+    return {'check_finite': cfg['cf'], 'assume_sorted': cfg['as'],
+            'output_dtype': None if cfg['dtype'] is None else np.dtype(cfg['dtype']).type}
+
+
+def config_invariant(f, cfg):
+    """The constructor's configuration is never changed by a call (returned or raised)."""
+    want = cfg_kwargs(cfg)
+    if f._dtype is not want['output_dtype']:
+        return f'the output dtype of the object changed from {want["output_dtype"]} to {f._dtype}'
+    if f._check_finite is not want['check_finite']:
+        return f'check_finite of the object changed from {want["check_finite"]} to {f._check_finite}'
+    return None
+
+
+def new_1d(x, cfg=None):
     from pybaselines import Baseline
-    return Baseline(None if x is None else np.array(x, dtype=float))
+    with warnings.catch_warnings():
+        warnings.simplefilter('ignore')
+        return Baseline(None if x is None else np.array(x, dtype=float), **cfg_kwargs(cfg))
 
 
-def fresh_1d(f, x_in):
+def fresh_1d(f, x_in, cfg=None):
     """A new object for the CURRENT x-values (the input x, or the lazily created one) with the same
-    solver preference."""
-    g = new_1d(x_in if x_in is not None else (None if f.x is None else f.x.copy()))
+    constructor configuration and solver preference."""
+    g = new_1d(x_in if x_in is not None else (None if f.x is None else f.x.copy()), cfg)
     g.banded_solver = f.banded_solver
     return g
 
@@ -465,7 +527,8 @@ def run_history_1d(h, check_fresh=True, unpool=()):
     N, seed = h['N'], h['seed']
     y = make_y(N, seed)
     x_in = make_x(h['x'], N, seed)
-    f = new_1d(x_in)
+    cfg = h.get('cfg')
+    f = new_1d(x_in, cfg)
     recs = []
     diffs = []
     pool = {'w': np.ones(N), 'y': y.copy()}
@@ -474,7 +537,7 @@ def run_history_1d(h, check_fresh=True, unpool=()):
         args = None if call['m'] == 'set_solver' else call_args_1d(call, N, y, pool, i, unpool=unpool)
         ref = None
         if check_fresh and call['m'] != 'set_solver':
-            g = fresh_1d(f, x_in)
+            g = fresh_1d(f, x_in, cfg)
             args_g = call_args_1d(call, N, y, pool, i, fresh=True)
             ref = do_call(g, call, args_g)
         res = do_call(f, call, args)
@@ -482,7 +545,7 @@ def run_history_1d(h, check_fresh=True, unpool=()):
         if ref is not None and not any(d[2] == 'result' for d in diffs) and not same_result(res, ref):
             diffs.append((i, describe_diff(res, ref), 'result'))
         if check_fresh and not any(d[2] == 'invariant' for d in diffs):
-            inv = invariant_1d(f)
+            inv = config_invariant(f, cfg) or invariant_1d(f)
             if inv:
                 diffs.append((i, 'invariant: ' + inv, 'invariant'))
     return recs, diffs
@@ -543,13 +606,44 @@ def echo(rng, calls, float_kw, limit=3):
     return out + pending
 
 
-def gen_history_1d(rng, nmax=12):
+def _opt_call(m):
+    kw = {'adaptive_minmax': {'method': 'modpoly', 'poly_order': 2},
+          'collab_pls': {'method': 'pspline_asls', 'method_kwargs': {'max_iter': 6, 'lam': 10, 'num_knots': 6, 'spline_degree': 3}},
+          'optimize_extended_range': {'method': 'modpoly', 'min_value': 2, 'max_value': 3, 'width_scale': 0.2},
+          'custom_bc': {'method': 'asls', 'method_kwargs': {'lam': 1e3, 'max_iter': 5}, 'regions': [[0, 8]], 'sampling': 2,
+                        'lam': None}}[m]
+    return {'m': m, 'kw': json.loads(json.dumps(kw)), 'data': 'ok', 'w': None}
+
+
+def enumerated_1d():
+    """Fixed grid, run before the random histories: every optimizer x every way of being rejected, on objects with a
+    non-default output dtype, followed by ordinary probes (and the same optimizer called properly)."""
+    out = []
+    probes = [{'m': 'poly', 'kw': {'poly_order': 2}, 'data': 'ok', 'w': None},
+              {'m': 'asls', 'kw': {'diff_order': 2}, 'data': 'ok', 'w': None},
+              {'m': 'pspline_asls', 'kw': {'num_knots': 6, 'spline_degree': 3, 'diff_order': 2}, 'data': 'ok', 'w': None}]
+    k = 0
+    for m in sorted(FAIL_MODES):
+        for mode in FAIL_MODES[m]:
+            for dt in ('float32', 'int64'):
+                calls = [make_failing(_opt_call(m), mode)] + json.loads(json.dumps(probes)) + [_opt_call(m)]
+                out.append({'dim': 1, 'N': 40, 'x': ['uniform', 'none', 'unsorted'][k % 3], 'seed': 11 + k,
+                            'cfg': {'dtype': dt, 'cf': True, 'as': False}, 'calls': calls})
+                k += 1
+    return out
+
+
+def gen_history_1d(rng, nmax=12, k=0):
     N = rng.choice([24, 30, 37, 45, 60])
     xk = rng.choice(['none', 'none', 'uniform', 'random', 'random', 'dup', 'unsorted'])
     last = {}
     calls = [gen_call_1d(rng, last) for _ in range(rng.randint(1, nmax))]
     calls = echo(rng, calls, FLOAT_KW)
-    return {'dim': 1, 'N': N, 'x': xk, 'seed': rng.randrange(10 ** 6), 'calls': calls}
+    cfg = CONFIGS[k % len(CONFIGS)]
+    if not cfg['cf']:
+        # without the finiteness check NaN data is not rejected up front: keep the histories inside the modelled inputs
+        calls = [dict(c, data='ok') if c.get('data') == 'nan' else c for c in calls]
+    return {'dim': 1, 'N': N, 'x': xk, 'seed': rng.randrange(10 ** 6), 'cfg': cfg, 'calls': calls}
 
 
 def nontrivial_1d(h):
@@ -652,17 +746,17 @@ def report_diff(ctx, h, diff, params=()):
     d2 = [d for d in d2 if d[2] == kind]
     ctx.fail(key, f'{"Baseline" if h["dim"] == 1 else "Baseline2D"}.{probe["m"]} after {len(small["calls"]) - 1} earlier call(s) '
              f'on the same object differs from the same call on a fresh object: {d2[0][1] if d2 else what} '
-             f'(history: {[(c["m"], c.get("kw"), c.get("w"), c.get("data"), c.get("pp")) for c in small["calls"]]}, x={small["x"]}, N={small["N"]}'
+             f'(history: {[(c["m"], c.get("kw"), c.get("w"), c.get("data"), c.get("pp")) for c in small["calls"]]}, x={small["x"]}, N={small["N"]}, fitter configuration={small.get("cfg")}'
              + (f'; the ndarray passed as {list(params)} is refilled in place between the calls and the object keeps it by reference' if params else '') + ')',
              {'kind': 'history', 'history': small})
 
 
 # ------------------------------------------------------------------------------------------ 2-D (filled in below)
-from .c03_2d import (gen_history_2d, run_history_2d, history_literal_2d, nontrivial_2d)  # noqa: E402
+from .c03_2d import (gen_history_2d, run_history_2d, history_literal_2d, nontrivial_2d, enumerated_2d)  # noqa: E402
 
 
 # ------------------------------------------------------------------------------------------ run
-def eval_cases(ctx, name, lits, ok_def, per=60):
+def eval_cases(ctx, name, lits, ok_def, per=60, hs=None):
     bad_any = False
     for k in range(0, len(lits), per):
         sh = lits[k:k + per]
@@ -678,9 +772,13 @@ Eval vm_compute in (bad ok cases).
             bad_any = True
         elif not vals or not (vals[0].startswith('(0%nat, [])') or vals[0].startswith('(0, [])')):
             bad_any = True
+            first = ''
+            m = __import__('re').search(r'\[(\d+)', vals[0].split(',', 1)[1]) if vals else None
+            if m and hs is not None and k + int(m.group(1)) < len(hs):
+                first = ' first disagreeing history: ' + json.dumps(hs[k + int(m.group(1))])[:1500]
             ctx.broke(f'correspondence:{name}-shard{k // per}',
                       f'model state and implementation cache state disagree after some call of a history: {vals} '
-                      f'(indices into shard starting at case {k})')
+                      f'(indices into shard starting at case {k}).{first}')
     return bad_any
 
 
@@ -704,8 +802,10 @@ def histories(ctx, dim, count):
     reported = {'result': 0, 'invariant': 0}
     refkeys = {}
     excluded = 0
-    for k in range(count):
-        h = gen(ctx.rng)
+    kept = []
+    fixed = enumerated_1d() if dim == 1 else enumerated_2d()
+    for k in range(count + len(fixed)):
+        h = fixed[k] if k < len(fixed) else gen(ctx.rng, k=k)
         try:
             recs, diffs = run(h)
         except Exception as exc:  # noqa
@@ -737,6 +837,7 @@ def histories(ctx, dim, count):
             excluded += 1
         else:
             lits.append(lit(h, recs))
+            kept.append(h)
     if reported['result'] or reported['invariant']:
         ctx.note(f'{dim}-D: {reported["result"]} histories with a call differing from the fresh object, '
                  f'{reported["invariant"]} with a cached array differing from a fresh computation')
@@ -747,7 +848,7 @@ def histories(ctx, dim, count):
     name = f'hist{dim}d'
     ob = f'correspondence:cache-state-after-every-call-{dim}d'
     ctx.obligations.append(ob)
-    if not eval_cases(ctx, name, lits, OK_1D if dim == 1 else OK_2D):
+    if not eval_cases(ctx, name, lits, OK_1D if dim == 1 else OK_2D, hs=kept):
         ctx.discharged.append(ob)
     return nnum
 
@@ -848,7 +949,9 @@ def run(ctx):
                 '(polynomial orders up/down/same, weighted/unweighted, Vandermonde-only methods, spline (num_knots, degree) pairs incl. pairs '
                 'with equal num_knots+degree, require_unique_x methods, solver setter, wrong-length/NaN/None data, bad weights, '
                 'invalid orders/knots/degrees/diff_order, bodies that raise after their setup); x in {None (lazy), uniform, random, '
-                'with a duplicate, unsorted}; per history a pool of reusable argument OBJECTS (one weights array, one data array) that calls '
+                'with a duplicate, unsorted}; fitter configuration cycling over output_dtype {None, float32, int64} x check_finite x assume_sorted; '
+                'a fixed grid of rejected optimizer calls (raised inside / right after / before the delegated fit, or up front) followed by probes, '
+                'and the same rejections at random positions; per history a pool of reusable argument OBJECTS (one weights array, one data array) that calls '
                 'refill in place and pass again (the fresh object gets copies of the current values); echoed calls: a call repeated with one '
                 'of its own float parameters nudged by 0.4-4 % (optimizer scales, lam, p, tol, fraction, quantile); distinct = distinct history; non-trivial = at least two different polynomial orders '
                 'or two different spline keys in the history')
